@@ -1,4 +1,5 @@
 import NetVerif.Proofs.Lemmas.WriteSchedRefine
+import NetVerif.Model.WriteSched7540
 /-!
 # C12 — HTTP/2 write schedulers deliver every queued frame exactly once, in order
 
@@ -171,5 +172,91 @@ example : (Kind.rr.init.run exEnv exOps).2.2 =
 example : (Kind.p9218.init.run exEnv exOps).2.2 =
     [.ok, .ok, .ok, .ok, .ok, .frame (.ctl 12), .frame (.data 1 10 0 4 false false),
      .frame (.data 1 10 4 2 false false), .frame (.hdr 3 11), .none, .ok, .none] := by decide
+
+/-! ## The full statement over all four schedulers, and why it is false for the code as it is
+
+`priorityWriteSchedulerRFC7540` (model: `Model/WriteSched7540.lean`, with explicit slice aliasing) violates
+C12 in two ways, both reproduced on the real code by the harness:
+
+1. `CloseStream` hands a *copy* of the node's queue to the pool and leaves the node's own slices
+   populated (with zeroed cells); with `MaxClosedNodesInTree > 0` the closed node stays in the tree and a
+   later `Pop` returns `(FrameWriteRequest{}, true)` (`witnessStale`).
+2. `OpenStream` on a node created idle by `AdjustStream` leaves it on the idle list; when the list
+   overflows the node of the *open* stream is removed: its queued frames vanish without `CloseStream` and
+   the next `Push` of a DATA frame panics (`witnessIdleEvict`). -/
+
+/-- All four schedulers. -/
+inductive Kind4 where
+  | base (k : Kind)
+  | p7540 (maxClosed maxIdle : Nat) (throttle : Bool)
+
+/-- Final environment and results of a history on a freshly constructed scheduler. -/
+def runK (k : Kind4) (e : Env) (ops : List Op) : Env × List Res :=
+  match k with
+  | .base k => ((k.init.run e ops).1, (k.init.run e ops).2.2)
+  | .p7540 mc mi th => (((P7540.init mc mi th).run e ops).1, ((P7540.init mc mi th).run e ops).2.2)
+
+/-- **C12, full statement**: for every scheduler and every contract-respecting history the observable
+run (calls ↦ results, with the flow-control environment) is a run of the FIFO specification that conserves
+every pushed token, never yields the zero request and never panics. -/
+def Statement : Prop :=
+  ∀ (k : Kind4) (e : Env) (ops : List Op), Contract (fun _ => false) ops →
+    ∃ a', Holds e ops (runK k e ops).2 (runK k e ops).1 a'
+
+/-- The region the proof covers: everything except the RFC 7540 scheduler.  (The Go-side oracle is
+narrower: it only excuses RFC 7540 histories after a `CloseStream` with queued frames under
+`MaxClosedNodesInTree > 0`, or after the eviction of an opened former idle node; all other RFC 7540
+histories are checked by the oracle and the differential tie, but not covered by a theorem.) -/
+def Excluded : Kind4 → Bool
+  | .base _ => false
+  | .p7540 .. => true
+
+theorem holds_partial (k : Kind4) (e : Env) (ops : List Op) (hk : Excluded k = false)
+    (hc : Contract (fun _ => false) ops) : ∃ a', Holds e ops (runK k e ops).2 (runK k e ops).1 a' := by
+  cases k with
+  | base k => exact ⟨_, holds_rr_p9218_rand k e ops hc⟩
+  | p7540 mc mi th => simp [Excluded] at hk
+
+def witnessEnv : Env := { maxFrame := 16384, connWin := 65535, win := fun _ => 65535 }
+
+/-- push 2 DATA frames, close the stream, pop. -/
+def witnessStale : List Op :=
+  [.openS 1 0 6, .push (.data 1 1 0 3 false true), .push (.data 1 2 0 3 true true), .closeS 1, .pop none, .pop none, .pop none]
+
+theorem witnessStale_contract : Contract (fun _ => false) witnessStale := by
+  simp [witnessStale, Contract, OpOK, opnOp, pushOK, upd]
+
+/-- The model of the code as it is returns the zero request twice (exactly what the real code does). -/
+theorem witnessStale_result : (runK (.p7540 10 10 false) witnessEnv witnessStale).2 =
+    [.ok, .ok, .ok, .ok, .frame .empty, .frame .empty, .none] := by decide
+
+/-- PRIORITY for idle stream 1, open it, queue a frame, then PRIORITY frames for two more idle streams
+with `MaxIdleNodesInTree = 2`: stream 1's node is evicted, the next DATA push panics. -/
+def witnessIdleEvict : List Op :=
+  [.adjust 1 0 false 15 6, .openS 1 0 6, .push (.hdr 1 1), .adjust 3 0 false 15 6, .adjust 5 0 false 15 6,
+   .pop none, .push (.data 1 2 0 3 true true)]
+
+theorem witnessIdleEvict_contract : Contract (fun _ => false) witnessIdleEvict := by
+  simp [witnessIdleEvict, Contract, OpOK, opnOp, pushOK, upd]
+
+theorem witnessIdleEvict_result : (runK (.p7540 10 2 false) witnessEnv witnessIdleEvict).2 =
+    [.ok, .ok, .ok, .ok, .ok, .none, .panic] := by decide
+
+/-- **The full statement is false for the code as it is** (first defect). -/
+theorem full_false : ¬ Statement := by
+  intro h
+  obtain ⟨a', L', _, _, hres⟩ := h (.p7540 10 10 false) witnessEnv witnessStale witnessStale_contract
+  rw [witnessStale_result] at hres
+  exact (hres (.frame .empty) (by simp)).1 rfl
+
+/-- The second defect alone also refutes it. -/
+theorem full_false_idle_evict : ¬ Statement := by
+  intro h
+  obtain ⟨a', L', _, _, hres⟩ := h (.p7540 10 2 false) witnessEnv witnessIdleEvict witnessIdleEvict_contract
+  rw [witnessIdleEvict_result] at hres
+  exact (hres .panic (by simp)).2 rfl
+
+/-- With `MaxClosedNodesInTree = 0` (closed nodes are removed at once) the first witness behaves. -/
+example : (runK (.p7540 0 10 false) witnessEnv witnessStale).2 = [.ok, .ok, .ok, .ok, .none, .none, .none] := by decide
 
 end NetVerif.Proofs.C12
